@@ -8,8 +8,8 @@ CONSTANTS
   JCmds = {"poll"}
   HCmds = {"tick", "clear", "execdrop"}
   Spurious = FALSE
-  Strict = FALSE
-  Fix = {}
+  Strict = TRUE
+  Fix = {"D10a", "D10b", "D12"}
 SPECIFICATION LiveSpec
 INVARIANTS NoErr HomeOnly ExactlyOnce
 PROPERTIES JoinCompletes
